@@ -103,8 +103,6 @@ def realise(hist, S, rnd, name, far_ok=True):
                 steps.append({"op": "gpush", "p": p, "blocks": bl, "gk": rnd.choice(["badsig", "tamper"])})
         elif op == "sync":
             steps.append({"op": "sync"})
-            if rnd.random() < 0.15:
-                steps.append({"op": "direct"})
     return {"name": name, "h0": h0, "peers": peers, "steps": steps}
 
 
@@ -155,8 +153,6 @@ def random_scenario(rnd, name):
             steps.append({"op": "gpush", "p": rnd.choice(conn), "blocks": [rnd.randrange(max(1, h0), M + 1)], "gk": rnd.choice(["badsig", "tamper"])})
         elif r < 0.76:
             steps.append({"op": "local", "blocks": [rnd.randrange(max(1, h0 - 1), M + 1) for _ in range(rnd.randrange(1, 4))]})
-        elif r < 0.8:
-            steps.append({"op": "direct"})
         elif r < 0.92:
             steps.append({"op": "sync"})
         elif conn:
